@@ -545,6 +545,15 @@ func (b *broker) faultNow(f BrokerFault) {
 			b.s.fault("broker-stall")
 			bs.stallUntil = b.s.W.Now() + time.Duration(f.DurMs)*time.Millisecond
 			b.s.W.Log("broker:"+bs.name, "stall", nil, "", f.DurMs)
+		case "backpressure":
+			b.s.fault("broker-backpressure")
+			b.s.W.Log("broker:"+bs.name, "backpressure", nil, "", int64(f.Cap))
+			bs.conn.SetWriteLimit(f.Cap)
+			conn, name := bs.conn, bs.name
+			b.s.W.After(time.Duration(f.DurMs)*time.Millisecond, "mq:"+name+":window-opens", func() {
+				b.s.W.Log("broker:"+name, "window-opens", nil, "", 0)
+				conn.SetWriteLimit(-1)
+			})
 		case "raw":
 			b.s.fault("broker-raw")
 			bs.sendRaw(f.Raw, "RAW", -1)
